@@ -33,6 +33,11 @@ def main(argv):
         mtscomp.DEFAULT_CONFIG = [(k, (2 if k == "n_threads" else v)) for k, v in mtscomp.DEFAULT_CONFIG]
     except Exception:
         pass
+    # M9 call-history monitor: installed BEFORE the check module is imported, so that names it binds with `from m import f` are the monitored ones
+    purity = None
+    if not os.environ.get("VERIF_NO_CALL_HISTORY"):
+        from vlib import purity
+        purity.install()
     mod = importlib.import_module(f"checks.{pid.lower()}")
     cases = json.loads(Path(inp).read_text())
     scratch = Path(os.environ["VERIF_SHARD_SCRATCH"])
@@ -45,8 +50,18 @@ def main(argv):
             t0 = time.time()
             for attempt in range(4):
                 try:
+                    if purity is not None:
+                        purity.begin_case()
                     r = mod.run_case(case)
                     r = r.as_dict() if hasattr(r, "as_dict") else dict(r)
+                    if purity is not None:
+                        pv, pobs = purity.end_case()
+                        r.setdefault("violations", []).extend(pv)
+                        ob = r.setdefault("observed", {})
+                        for k_, v_ in pobs.items():
+                            ob[k_] = ob.get(k_, 0) + v_
+                        if pv:
+                            ob["violations_raised"] = ob.get("violations_raised", 0) + len(pv)
                     break
                 except BaseException as e:  # harness failure: never a verdict about the property
                     if isinstance(e, KeyboardInterrupt):
